@@ -1675,16 +1675,14 @@ impl TypeLayout {
             (Self::List(ListType::Open(t1)), Self::List(ListType::Open(t2)), _) => {
                 t1.eq_complex(t2, flags)
             }
-            (Self::List(ListType::Mixed(t1)), Self::List(ListType::Open(t2)), _)
-            | (Self::List(ListType::Open(t2)), Self::List(ListType::Mixed(t1)), _) => {
+            (Self::List(ListType::Mixed(t1)), Self::List(ListType::Open(t2)), _) => {
+                // every slot of the expected fixed shape is the expected type of an element of the supplied list
                 let flags = Box::new(flags.deref());
-
-                for ty in t1 {
-                    if !t2.eq_complex(ty, *flags) {
-                        return false;
-                    }
-                }
-                true
+                t1.iter().all(|ty| ty.eq_complex(t2, *flags))
+            }
+            (Self::List(ListType::Open(t2)), Self::List(ListType::Mixed(t1)), _) => {
+                let flags = Box::new(flags.deref());
+                t1.iter().all(|ty| t2.eq_complex(ty, *flags))
             }
             (Self::Optional(None), ..) if flags.force_rhs_to_be_unwrapped_lhs => true,
             (Self::Optional(None), Self::Optional(Some(_)), _)
